@@ -292,6 +292,11 @@ struct Gs {
     labels: BTreeMap<String, String>,
     annotations: BTreeMap<String, String>,
     players: Option<(u32, u32)>,
+    /// 0: the whole status; 1: `state` only (no address, no ports); 2: `address: null`; 3: `status: {}`
+    partial_status: u8,
+    /// marked for deletion (deletionTimestamp set, held by a finalizer): the object is still there and
+    /// its state is what its status says
+    deleting: bool,
     /// a Go API server writes a nil slice or map as `null`, not as `[]` or by leaving the field out:
     /// bit 0 = ports, bit 1 = lists / list values, bit 2 = counters
     null_style: u8,
@@ -305,6 +310,11 @@ impl Gs {
         metadata.insert("uid".into(), json!(self.uid));
         metadata.insert("generation".into(), json!(self.generation));
         metadata.insert("creationTimestamp".into(), json!("2026-10-04T12:00:00Z"));
+        if self.deleting {
+            metadata.insert("deletionTimestamp".into(), json!("2026-10-04T13:00:00Z"));
+            metadata.insert("deletionGracePeriodSeconds".into(), json!(0));
+            metadata.insert("finalizers".into(), json!(["agones.dev/controller"]));
+        }
         if !self.labels.is_empty() {
             metadata.insert("labels".into(), json!(self.labels));
         }
@@ -325,7 +335,11 @@ impl Gs {
         if self.has_status {
             let mut status = Map::new();
             status.insert("state".into(), json!(self.state));
-            status.insert("address".into(), json!(self.address));
+            if self.partial_status == 2 {
+                status.insert("address".into(), Value::Null);
+            } else {
+                status.insert("address".into(), json!(self.address));
+            }
             if let Some(ports) = &self.ports {
                 status.insert(
                     "ports".into(),
@@ -372,6 +386,13 @@ impl Gs {
             }
             if let Some((count, cap)) = self.players {
                 status.insert("players".into(), json!({"count": count, "capacity": cap, "ids": []}));
+            }
+            match self.partial_status {
+                1 => {
+                    status.retain(|k, _| k == "state");
+                }
+                3 => status.clear(),
+                _ => {}
             }
             obj["status"] = Value::Object(status);
         }
@@ -542,10 +563,17 @@ impl<'a> Generator<'a> {
             annotations: BTreeMap::new(),
             players: None,
             null_style: if self.rng.chance(1, 3) { 1 + self.rng.below(7) as u8 } else { 0 },
+            deleting: false,
+            partial_status: 0,
         };
         self.randomize_meta(&mut g);
         // servers that are not ready yet often have no address / ports; a few never get a status
         let early = matches!(state, "PortAllocation" | "Creating" | "Starting" | "Scheduled");
+        // a status written by something other than the controller (a manifest, a merge patch, a tool)
+        // may lack fields the controller always writes: such a server is not ready, that is all
+        if early && self.rng.chance(1, 6) {
+            g.partial_status = 1 + self.rng.below(3) as u8;
+        }
         if early && self.rng.chance(1, 2) {
             g.address = String::new();
             if self.rng.bool() {
@@ -671,7 +699,9 @@ impl<'a> Generator<'a> {
         let mut g = self.cur.get(name).cloned().expect("exists");
         let before = g.to_json();
         for _ in 0..8 {
-            match self.rng.below(6) {
+            match self.rng.below(7) {
+                // the first step of a deletion: the timestamp is stamped, the finalizer holds the object
+                6 => g.deleting = true,
                 0 => g.state = if g.state == "Ready" { "Allocated" } else { "Ready" }.to_string(),
                 1 => self.randomize_meta(&mut g),
                 2 => g.ports = Some(self.fresh_ports()),
